@@ -1,0 +1,58 @@
+//go:build verif
+
+package pool
+
+import (
+	"context"
+	"net/http"
+)
+
+// Exported wrappers for the runtime-monitoring harness (property C17).
+// They add no behaviour of their own.
+
+// VerifC17CheckPeer runs the real checkPeer once against nodeID.
+func (p *PeerPool) VerifC17CheckPeer(ctx context.Context, nodeID string) {
+	p.checkPeer(ctx, nodeID)
+}
+
+// VerifC17Ranked returns rendezvousRanked over the node's current peer list.
+func (p *PeerPool) VerifC17Ranked(subscriberID string) []string {
+	p.mu.RLock()
+	nodes := make([]string, len(p.peerNodes))
+	copy(nodes, p.peerNodes)
+	p.mu.RUnlock()
+	r := rendezvousRanked(subscriberID, nodes)
+	out := make([]string, len(r))
+	copy(out, r)
+	return out
+}
+
+// VerifC17HealthyOwner returns getHealthyOwner(subscriberID).
+func (p *PeerPool) VerifC17HealthyOwner(subscriberID string) string {
+	return p.getHealthyOwner(subscriberID)
+}
+
+// VerifC17PeerNodes returns a copy of the node's current hash-ring membership.
+func (p *PeerPool) VerifC17PeerNodes() []string {
+	p.mu.RLock()
+	defer p.mu.RUnlock()
+	out := make([]string, len(p.peerNodes))
+	copy(out, p.peerNodes)
+	return out
+}
+
+// VerifC17SetHTTPClients replaces the forwarding and health-check HTTP clients.
+func (p *PeerPool) VerifC17SetHTTPClients(forward, health *http.Client) {
+	if forward != nil {
+		p.httpClient = forward
+	}
+	if health != nil {
+		p.healthCheckClient = health
+	}
+}
+
+// VerifC17HealthThreshold returns the consecutive-failure threshold.
+func (p *PeerPool) VerifC17HealthThreshold() int { return p.healthThreshold }
+
+// VerifC17PeerAddr returns getPeerAddr(nodeID).
+func (p *PeerPool) VerifC17PeerAddr(nodeID string) string { return p.getPeerAddr(nodeID) }
